@@ -204,16 +204,35 @@ func (cj *CookieJar) parseCookiesFromResp(host, path []byte, resp *fasthttp.Resp
 
 	now := time.Now()
 	resp.Header.VisitAllCookie(func(key, value []byte) {
-		created := false
-		c := searchCookieByKeyAndPath(key, path, cookies)
-		if c == nil {
-			c, created = fasthttp.AcquireCookie(), true
-		}
-
+		c := fasthttp.AcquireCookie()
 		_ = c.ParseBytes(value) //nolint:errcheck // ignore error
-		if c.Expire().Equal(fasthttp.CookieExpireUnlimited) || c.Expire().After(now) {
+
+		// A cookie is identified by its name and its own path, the path of the request is only the default.
+		cookiePath := c.Path()
+		if len(cookiePath) == 0 {
+			cookiePath = path
+		}
+		existing := searchCookieByKeyAndPath(key, cookiePath, cookies)
+		live := c.Expire().Equal(fasthttp.CookieExpireUnlimited) || c.Expire().After(now)
+
+		switch {
+		case existing != nil && live:
+			// update the stored cookie instead of adding a second one
+			existing.CopyTo(c)
+			fasthttp.ReleaseCookie(c)
+		case existing != nil:
+			// the server expired the cookie: forget it
+			for i := range cookies {
+				if cookies[i] == existing {
+					cookies = append(cookies[:i], cookies[i+1:]...)
+					break
+				}
+			}
+			fasthttp.ReleaseCookie(existing)
+			fasthttp.ReleaseCookie(c)
+		case live:
 			cookies = append(cookies, c)
-		} else if created {
+		default:
 			fasthttp.ReleaseCookie(c)
 		}
 	})
